@@ -11,6 +11,7 @@ import (
 
 	"github.com/oasisprotocol/curve25519-voi/curve/scalar"
 	"github.com/oasisprotocol/curve25519-voi/zzverif/gen"
+	"github.com/oasisprotocol/curve25519-voi/zzverif/hist"
 	"github.com/oasisprotocol/curve25519-voi/zzverif/mon"
 	"github.com/oasisprotocol/curve25519-voi/zzverif/ref"
 )
@@ -42,8 +43,10 @@ func bytesOf(s *scalar.Scalar) []byte {
 }
 
 type ctx struct {
-	r *mon.Run
-	c Case
+	r  *mon.Run
+	c  Case
+	h  *hist.Pool // receivers with a past (package hist)
+	hv *hist.Pool // operand objects with a past (a separate pool: receivers never overwrite live operands)
 }
 
 func (x *ctx) expect(op string, got *scalar.Scalar, want *big.Int, det func() string) {
@@ -57,13 +60,13 @@ func (x *ctx) expect(op string, got *scalar.Scalar, want *big.Int, det func() st
 
 func (x *ctx) pair(a, b *big.Int) {
 	det := func() string { return fmt.Sprintf("a=%x b=%x", a, b) }
-	sa, sb := sc(a), sc(b)
+	sa, sb := x.hv.SVal2(ref.LE32(a), ref.LE32(b)) // operand objects with a past, values written through a random mutator
 	x.r.Journal("c05 pair %s", det())
 	x.r.Eval([]byte("p" + a.String() + "|" + b.String()))
-	x.expect("Add", scalar.New().Add(sa, sb), new(big.Int).Add(a, b), det)
-	x.expect("Sub", scalar.New().Sub(sa, sb), new(big.Int).Sub(a, b), det)
-	x.expect("Mul", scalar.New().Mul(sa, sb), new(big.Int).Mul(a, b), det)
-	t := scalar.New().Set(sa)
+	x.expect("Add", x.h.S().Add(sa, sb), new(big.Int).Add(a, b), det)
+	x.expect("Sub", x.h.S().Sub(sa, sb), new(big.Int).Sub(a, b), det)
+	x.expect("Mul", x.h.S().Mul(sa, sb), new(big.Int).Mul(a, b), det)
+	t := x.h.S().Set(sa)
 	x.expect("Add-aliased", t.Add(t, sb), new(big.Int).Add(a, b), det)
 	t.Set(sb)
 	x.expect("Sub-aliased", t.Sub(sa, t), new(big.Int).Sub(a, b), det)
@@ -86,7 +89,7 @@ func (x *ctx) pair(a, b *big.Int) {
 		x.r.Violate("scalar/operand-modified", det(), x.c)
 	}
 	for ch := 0; ch < 2; ch++ {
-		t := scalar.New()
+		t := x.h.S()
 		t.ConditionalSelect(sa, sb, ch)
 		w := a
 		if ch == 1 {
@@ -105,11 +108,11 @@ func (x *ctx) pair(a, b *big.Int) {
 
 func (x *ctx) unary(a *big.Int) {
 	det := func() string { return fmt.Sprintf("a=%x", a) }
-	sa := sc(a)
+	sa := x.hv.SVal(ref.LE32(a))
 	x.r.Eval([]byte("u" + a.String()))
-	x.expect("Neg", scalar.New().Neg(sa), new(big.Int).Neg(a), det)
-	x.expect("Reduce", scalar.New().Reduce(sa), a, det)
-	t := scalar.New().Set(sa)
+	x.expect("Neg", x.h.S().Neg(sa), new(big.Int).Neg(a), det)
+	x.expect("Reduce", x.h.S().Reduce(sa), a, det)
+	t := x.h.S().Set(sa)
 	x.expect("Reduce-aliased", t.Reduce(t), a, det)
 	t.Set(sa)
 	x.expect("Neg-aliased", t.Neg(t), new(big.Int).Neg(a), det)
@@ -119,7 +122,7 @@ func (x *ctx) unary(a *big.Int) {
 	}
 	if modL(a).Sign() != 0 {
 		inv := new(big.Int).ModInverse(modL(a), L)
-		x.expect("Invert", scalar.New().Invert(sa), inv, det)
+		x.expect("Invert", x.h.S().Invert(sa), inv, det)
 		t.Set(sa)
 		x.expect("Invert-aliased", t.Invert(t), inv, det)
 	}
@@ -136,7 +139,7 @@ func (x *ctx) decoders(b []byte) {
 	if got := scalar.ScMinimalVartime(b); got != canon {
 		x.r.Violate("scalar/ScMinimalVartime", fmt.Sprintf("got %v want %v; %s", got, canon, det()), x.c)
 	}
-	s, err := scalar.New().SetCanonicalBytes(b)
+	s, err := x.h.S().SetCanonicalBytes(b)
 	if (err == nil) != canon || (err == nil && !bytes.Equal(bytesOf(s), b)) {
 		x.r.Violate("scalar/SetCanonicalBytes", fmt.Sprintf("err=%v want canonical=%v; %s", err, canon, det()), x.c)
 	}
@@ -155,7 +158,7 @@ func (x *ctx) decoders(b []byte) {
 			x.r.Violate("scalar/MarshalBinary", det(), x.c)
 		}
 	}
-	s4, err4 := scalar.New().SetBytesModOrder(b)
+	s4, err4 := x.h.S().SetBytesModOrder(b)
 	x.r.EvalN(5)
 	if err4 != nil {
 		x.r.Violate("scalar/SetBytesModOrder/error", det(), x.c)
@@ -169,7 +172,7 @@ func (x *ctx) decoders(b []byte) {
 		x.expect("NewFromBytesModOrder", s5, v, det)
 	}
 	// SetBits keeps the low 255 bits verbatim
-	s6, err6 := scalar.New().SetBits(b)
+	s6, err6 := x.h.S().SetBits(b)
 	m := append([]byte{}, b...)
 	m[31] &= 0x7f
 	if err6 != nil || !bytes.Equal(bytesOf(s6), m) {
@@ -180,7 +183,7 @@ func (x *ctx) decoders(b []byte) {
 func (x *ctx) wide(w []byte) {
 	det := func() string { return fmt.Sprintf("in=%x", w) }
 	x.r.Eval(append([]byte("w"), w...))
-	s, err := scalar.New().SetBytesModOrderWide(w)
+	s, err := x.h.S().SetBytesModOrderWide(w)
 	if err != nil {
 		x.r.Violate("scalar/SetBytesModOrderWide/error", det(), x.c)
 		return
@@ -193,7 +196,7 @@ func (x *ctx) wide(w []byte) {
 	}
 	x.expect("NewFromBytesModOrderWide", s2, ref.FromLE(w), det)
 	// SetRandom reads exactly 64 bytes and reduces them
-	s3, err := scalar.New().SetRandom(bytes.NewReader(w))
+	s3, err := x.h.S().SetRandom(bytes.NewReader(w))
 	if err != nil {
 		x.r.Violate("scalar/SetRandom/error", det(), x.c)
 		return
@@ -397,7 +400,8 @@ func wideCatalogue(rng *rand.Rand) [][]byte {
 }
 
 func runCase(r *mon.Run, c Case) {
-	x := &ctx{r: r, c: c}
+	x := &ctx{r: r, c: c, h: hist.New(r.Rng(c.Stream + "/receivers")), hv: hist.New(r.Rng(c.Stream + "/operands"))}
+	defer func() { r.HistN("objects-with-a-past", x.h.Uses+x.hv.Uses) }()
 	rng := r.Rng(c.Stream)
 	switch c.Kind {
 	case "pair":
